@@ -1,6 +1,7 @@
 import AffVerif.Proofs.IterLemmas
 import AffVerif.Proofs.BfsLemmas
 import AffVerif.Proofs.TreeLemmas
+import AffVerif.Proofs.Welford
 /-!
 # C13 — traversals and tree metrics are exact for every shape and start node
 
@@ -560,5 +561,37 @@ theorem C13_bfs_run_pre_skip (sk : Nat → Nat) (pre : Nat) (whole start : ITree
   have := bfs_run_eq_ref sk (start.size + 1) 0 [(start, 0)] start.size 0 0 lb ub
     (by simp [forestSize]) (by simp [forestSize])
   simpa [BfsM.new, qOf, ITree.refBfs] using this
+
+/-- `depth_stats()`, mean and variance: the running update of `average::Variance` (Welford; `Model/Stats.lean`) applied
+    to the terminal depths in traversal order yields the sample count, the textbook mean `Σd / n` and the textbook sum
+    of squared deviations `Σ (d − mean)²` (the reported sample variance is that sum over `n − 1`) — over every ordered
+    field, for every non-empty list of samples -/
+theorem C13_depth_stats_welford {α : Type} [Field α] [LinearOrder α] [IsStrictOrderedRing α] (ds : List α)
+    (hne : ds ≠ []) :
+    (Welford.run ds).n = (ds.length : α) ∧
+    (Welford.run ds).mean = ds.sum / (ds.length : α) ∧
+    (Welford.run ds).sum2 = (ds.map (fun d => (d - ds.sum / (ds.length : α)) * (d - ds.sum / (ds.length : α)))).sum := by
+  obtain ⟨hn, hm, hs⟩ := Welford.inv_run ds
+  have hlen : (ds.length : α) ≠ 0 := by
+    have : ds.length ≠ 0 := fun h => hne (List.length_eq_zero_iff.1 h)
+    exact_mod_cast this
+  have hmean : (Welford.run ds).mean = ds.sum / (ds.length : α) := by
+    rw [eq_div_iff hlen, mul_comm, ← hn]; exact hm
+  refine ⟨hn, hmean, ?_⟩
+  rw [← hmean, sum_sq_dev, hs, ← hm, hn]
+  ring
+
+/-- the sample variance reported for at least two terminals -/
+theorem C13_depth_stats_variance {α : Type} [Field α] [LinearOrder α] [IsStrictOrderedRing α] (ds : List α)
+    (hne : ds ≠ []) :
+    (Welford.meanVar ds).1 = ds.sum / (ds.length : α) ∧
+    (Welford.meanVar ds).2 =
+      (ds.map (fun d => (d - ds.sum / (ds.length : α)) * (d - ds.sum / (ds.length : α)))).sum / ((ds.length : α) - 1) := by
+  obtain ⟨h1, h2, h3⟩ := C13_depth_stats_welford ds hne
+  simp only [Welford.meanVar]
+  exact ⟨h2, by rw [h3, h1]⟩
+
+/-- non-vacuity / sanity: depths 1, 2, 2, 3 -/
+example : Welford.meanVar [(1 : Rat), 2, 2, 3] = (2, 2 / 3) := by decide +kernel
 
 end AV
